@@ -16,13 +16,13 @@ func init() {
 	register(&Property{
 		ID:    "C07",
 		Level: "other",
-		Explanation: "Structural necessary conditions on Record.UnmarshalText / MarshalText (SSA + dominance): (R1) classification order: '#' cut, Trim(spaces), first field; " +
+		Explanation: "Decided exactly by abstract evaluation into BDDs (no execution): the lines Record.UnmarshalText accepts are those of the record grammar (comment cut, space/tab separated fields, an address then names), for every line of up to 9 arbitrary bytes, with the two delegate parsers as uninterpreted predicates. Structural necessary conditions for the classification of rejected lines, the stored names and MarshalText (SSA + dominance; also the fall-back of the above): (R1) classification order: '#' cut, Trim(spaces), first field; " +
 			"ErrEmptyLine under len(field)==0, ErrNoHosts under len(tail)==0, both dominating the address parse whose error is returned as is; the name error wraps the validator's error; " +
 			"len(rec.Names) is the number of successful validations; (R2) the validating pass and the storing pass cut the same initial string with the same cutter, and that string is a " +
 			"copying conversion of the line tail; (R3) separator tables agree: every cutset is the constant `spaces`, only the recognised trimming/cutting calls occur, MarshalText's separator " +
 			"byte is in `spaces`; (R4) callee identity: names by netutil.ValidateDomainName, address by netip.Addr.UnmarshalText, MarshalText writes Addr.MarshalText then sep+name in slice order. " +
 			"Not decided: conformance for all byte lines, which needs the string semantics of netip.ParseAddr and ValidateDomainName.",
-		Technique: "SSA dominance / callee-identity / constant-table agreement rules over hostsfile/record.go",
+		Technique: "exact abstract evaluation of Record.UnmarshalText into ROBDDs with the delegate parsers as uninterpreted predicates per window (accepted lines == the record grammar for every line of bounded length) + SSA dominance / callee-identity / path-counting rules for the classification of rejected lines, the stored names and MarshalText",
 		Note:      "Trusted: go/ssa; bytes/strings Trim, TrimLeft, IndexAny, IndexByte; netip.Addr text codec.",
 		DesignRef: "DESIGN.md section 4, C07",
 		Run:       runC07,
